@@ -192,11 +192,11 @@ type RawUnixFS struct {
 	Mode        uint64
 	HasMode     bool
 	// Mtime (UnixFS 1.5): seconds may be negative (before 1970)
-	HasMtime    bool
-	MtimeSec    int64
-	MtimeNanos  uint32
-	HasNanos    bool
-	Extra       []byte // appended verbatim (unknown fields, garbage)
+	HasMtime   bool
+	MtimeSec   int64
+	MtimeNanos uint32
+	HasNanos   bool
+	Extra      []byte // appended verbatim (unknown fields, garbage)
 }
 
 func (u *RawUnixFS) Encode() []byte {
